@@ -44,6 +44,26 @@ def gen_cases(ctx):
                                       rng.choice([2, 3, 5, 9, 14]), rng.randrange(0, 7))
                 if new is None:
                     continue
+                variant = "fresh"
+                site, rsite = enz["site"], gens.rc(enz["site"])
+                # the replaced position may be wrapped by a typed part class (fixed overhang signature, as kit parts are)
+                jcls = gens.generic_spec("module", enz)
+                if rng.random() < 0.5:
+                    jcls = {"kind": "part", "role": "module", "enzyme": enz["name"], "sig": [old["up"], old["down"]]}
+                    variant = "typed"
+                    if site != rsite and rng.random() < 0.6:
+                        # a valid sibling on a backbone that is not domesticated: the discarded stretch carries one more
+                        # copy of the (reverse) site, not preceded by the downstream overhang
+                        for _ in range(20):
+                            bb = gens.rand_dna(rng, rng.randrange(enz["off"] + enz["ovh"] + 1, enz["off"] + enz["ovh"] + 5)) \
+                                + rsite + gens.rand_dna(rng, rng.randrange(1, 5))
+                            sq = gens.module_seq(enz, old["up"], old["down"], new["t"], bb, rng=rng)
+                            k = sq.rindex(rsite)
+                            before = sq[k - enz["off"] - enz["ovh"]:k - enz["off"]]
+                            if gens.count_circ(site, sq) == 1 and gens.count_circ(rsite, sq) == 2 and before.upper() != old["down"].upper():
+                                new = dict(new, seq=sq)
+                                variant = "typed:site-in-backbone"
+                                break
                 order = list(range(q))
                 rng.shuffle(order)
                 mods1 = [ch["modules"][i] for i in order] + ([extra] if extra else [])
@@ -60,10 +80,10 @@ def gen_cases(ctx):
                 elif mode == "random-new":
                     newseq = "".join(c.lower() if rng.random() < 0.5 else c for c in newseq)
                 cases.append({
-                    "enz": enz["name"], "q": q, "pos": j, "mode": mode,
+                    "enz": enz["name"], "q": q, "pos": j, "mode": mode, "variant": variant,
                     "vector": {"cls": gens.generic_spec("vector", enz), "seq": vseq},
-                    "modules1": [{"cls": gens.generic_spec("module", enz), "seq": seqs[id(m)]} for m in mods1],
-                    "modules2": [{"cls": gens.generic_spec("module", enz),
+                    "modules1": [{"cls": (jcls if m is old else gens.generic_spec("module", enz)), "seq": seqs[id(m)]} for m in mods1],
+                    "modules2": [{"cls": (jcls if m is new else gens.generic_spec("module", enz)),
                                   "seq": (newseq if m is new else seqs[id(m)])} for m in mods2],
                     "truth": {"pre": pre, "old": old["frag"], "new": new["frag"], "post": post},
                 })
@@ -80,9 +100,41 @@ def impl_pair(case):
     return out
 
 
+def impl_inplace(case):
+    """the replacement made the way a user edits a plasmid: the replaced module's record object receives the new
+    sequence in place and is wrapped again by the same class; the other entities are the objects of the first call"""
+    from Bio.Seq import Seq
+    from harness import implutil
+    try:
+        vector = implutil.mk_entity(case["vector"], "vector")
+        mods = [implutil.mk_entity(m, "mod%d" % i) for i, m in enumerate(case["modules1"])]
+    except Exception as e:  # noqa
+        return None
+    o1, _ = implutil.observe_assembly(vector, mods)
+    j = [i for i, (a, b) in enumerate(zip(case["modules1"], case["modules2"])) if a["seq"] != b["seq"]]
+    if len(j) != 1:
+        return None
+    j = j[0]
+    rec = mods[j].record
+    rec.seq = Seq(case["modules2"][j]["seq"])
+    try:
+        mods[j] = implutil.get_class(case["modules2"][j]["cls"])(rec)
+        o2, _ = implutil.observe_assembly(vector, mods)
+    except Exception as e:  # noqa
+        o2 = {"out": implutil.exc_class(e), "exc": type(e).__name__}
+    return [o1, o2]
+
+
 def oracle_pair(case):
     o1, o2 = impl_pair(case)
     t = case["truth"]
+    ip = impl_inplace(case)
+    if ip is not None:
+        for a, b, what in ((o1, ip[0], "original"), (o2, ip[1], "replacement")):
+            if (a["out"], a.get("seq"), a.get("unused")) != (b["out"], b.get("seq"), b.get("unused")):
+                return {"signature": "C19:edited-in-place:" + what,
+                        "what": "with the replaced module's record edited in place and wrapped again the %s assembly gives %s %s, "
+                                "from fresh records it gives %s %s" % (what, b["out"], b.get("seq"), a["out"], a.get("seq"))}
     if o1["out"] != "product":
         return {"signature": "C19:base-assembly-failed", "what": "the original assembly did not succeed: %s" % o1["out"]}
     if o2["out"] != "product":
@@ -117,6 +169,7 @@ def run(ctx):
         ctx.count("enzyme:" + c["enz"])
         ctx.count("chain:%d" % c["q"])
         ctx.count("case:" + c["mode"])
+        ctx.count("replacement:" + c["variant"])
         if o[0]["out"] == "product" and o[1]["out"] == "product":
             ctx.nontriv([c["vector"]["seq"], [m["seq"] for m in c["modules2"]]])
         for key, ob in (("modules1", o[0]), ("modules2", o[1])):
